@@ -4,14 +4,20 @@ from drv_node import NodeSuite
 class Prop:
     ID = 'C02'
     GEN = ['enums', 'node']
-    MODEL_TARGETS = ['model/Node.vo']
+    MODEL_TARGETS = ['model/Node.vo', 'model/NodeSpec.vo']
     TARGETS = ['props/C02.vo']
     PROPS_FILE = 'props/C02.v'
-    SUITES = [NodeSuite()]
-    RULE = ('random event histories (local ticks, peer ticks, STATE publications with arbitrary payload, handshake '
-            'notifications, failures, restart/shutdown/end_sync requests, process crashes) on one real instance with '
-            '6 declared instances and random synchro options; 1 of 4 histories hostile (bad origins, stale '
-            'timestamps, unknown masters); non-trivial = visits >= 3 FSM states or loses/isolates an instance')
-    ASSUMPTIONS = ['process plane abstracted to an oracle (starter busy, stopper busy, conflicting) per evaluation']
+    SUITES = [NodeSuite(evals={'mismatches': 'mismatches', 'spec_violations': 'spec_violations_c02',
+                               'known:shutdown-without-master': 'known_c02_shutdown'})]
+    RULE = ('adaptive random event histories (local ticks, peer ticks, STATE publications, handshake notifications, '
+            'failures, restart/shutdown/end_sync requests, process crashes) on one real instance with 6 declared '
+            'instances and random synchro options; the generator follows the real state so that handshakes complete '
+            'and coherent peer publications drive the FSM through every state; 1 of 4 histories ends with a hostile '
+            'suffix (bad origins, stale timestamps, unknown masters); non-trivial = visits >= 3 FSM states or '
+            'loses/isolates an instance')
+    ASSUMPTIONS = ['process plane abstracted to an oracle (starter busy, stopper busy, conflicting) per evaluation',
+                   'options are consistent with SupvisorsOptions.check_options (TIMEOUT forces CONTINUE, CORE needs a '
+                   'core list)']
     TRUSTED = ['modelled (not verified): statemachine.py state classes, statemodes.py, context.py handshake and '
-               'invalidation, instancestatus.py; Starter/Stopper/RunningFailureHandler stubbed in this suite']
+               'invalidation, instancestatus.py, listener read_publication/read_notification dispatch; '
+               'Starter/Stopper/RunningFailureHandler stubbed in this suite']
